@@ -297,6 +297,14 @@ double fakempi_min_in_flight(void)
 	return mn;
 }
 
+bool fakempi_buffer_in_flight(const void *lo, const void *hi)
+{
+	for(struct fm_msg *m = fl_head; m; m = m->next)
+		if(!m->data && (const char *)m->buf >= (const char *)lo && (const char *)m->buf < (const char *)hi)
+			return true;
+	return false;
+}
+
 unsigned fakempi_in_flight(void)
 {
 	unsigned n = 0;
